@@ -163,7 +163,7 @@ def expand(pool, key, calls, results):
         if k in ("seal", "open"):
             s = scen(gcm, "concurrent_" + k)
             gcm.append(dict(sc=s, op="gcm.aead", h="a", key=pool[key], noncesize=len(pool[call["a"]]), tagsize=16, path="asm",
-                            err="", kind="*sm4.sm4GcmAsm", asm_available=True, key_after=pool[key], ns=len(pool[call["a"]]), ov=16, panic=""))
+                            err="", kind="*sm4.sm4GcmAsm", stdlib_mode=False, asm_available=True, key_after=pool[key], ns=len(pool[call["a"]]), ov=16, panic=""))
             base = dict(sc=s, h="a", nonce=pool[call["a"]], aad=pool[call["c"]], prefix=[], spare=-1, alias="none",
                         repeat=False, j="v", panic=pa, out=res.get("out", []), out2=[],
                         nonce_after=pool[call["a"]], aad_after=pool[call["c"]], in_after=pool[call["b"]],
@@ -176,7 +176,7 @@ def expand(pool, key, calls, results):
         elif k in ("enc", "dec"):
             s = scen(sm4e, "concurrent_block")
             sm4e.append(dict(sc=s, op="sm4.newcipher", h="c", key=pool[key], asm=True, asm_available=True, err="",
-                             kind="*sm4.sm4CipherAsm", key_after=pool[key], blocksize=16, panic=""))
+                             kind="*sm4.sm4CipherAsm", portable=False, key_after=pool[key], blocksize=16, panic=""))
             sm4e.append(dict(sc=s, op="sm4.crypt", h="c", dec=(k == "dec"), src=pool[call["a"]], inplace=False,
                              out=res.get("out", []), src_after=pool[call["a"]], panic=pa))
         elif k == "sign":
